@@ -402,7 +402,10 @@ def _main_check(ctx: Ctx) -> None:
                   message=f"{[(short(c), sorted(lens_at(c))) for c in fills]}: with nothing supplied piece [0] does not exist", file=fi.file,
                   node=fills[0] if fills else track_loop)
         firsts = [s_ for s_ in track_loop.body if isinstance(s_, ast.Assign) and isinstance(s_.value, ast.Subscript) and src(s_.value.value) == sv]
-        ctx.check(len(firsts) == 1 and isinstance(firsts[0].value.slice, ast.Constant) and firsts[0].value.slice.value == 0 and not path_conditions(firsts[0], track_loop),
+        # ... or the piece is read in place: Bar(<split result>[0], ...) unconditionally in the track loop
+        bars_ = [c for c in ast.walk(track_loop) if isinstance(c, ast.Call) and src(c.func) == "Bar" and c.args]
+        in_place = not firsts and len(bars_) == 1 and src(bars_[0].args[0]) == f"{sv}[0]" and not path_conditions(bars_[0], track_loop)
+        ctx.check(in_place or (len(firsts) == 1 and isinstance(firsts[0].value.slice, ast.Constant) and firsts[0].value.slice.value == 0 and not path_conditions(firsts[0], track_loop)),
                   "SPLITCASE", f"{FN}: the bar is built from piece [0] on every path", function=FN,
                   construct="the bar is not built from the first piece of the split", message=f"{[short(x) for x in firsts]}", file=fi.file,
                   node=firsts[0] if firsts else track_loop)
@@ -467,7 +470,8 @@ def _main_check(ctx: Ctx) -> None:
         ctx.check(g is not None and isinstance(g.test, ast.Name) and g.test.id == flagp and not more, "SHORTEN", f"{FN}: re-quantisation exactly when requested",
                   function=FN, construct="re-quantisation not controlled by its flag alone", message=f"further conditions: {more}", file=fi.file, node=c)
         recv = call_method(c)[0]
-        ctx.check(isinstance(recv, ast.Name) and recv.id not in input_vars, "SHORTEN", f"{FN}: re-quantisation applies to the piece, not the input",
+        piece = isinstance(recv, ast.Subscript) and isinstance(recv.value, ast.Name) and recv.value.id not in input_vars and isinstance(recv.slice, ast.Constant)
+        ctx.check(piece or (isinstance(recv, ast.Name) and recv.id not in input_vars), "SHORTEN", f"{FN}: re-quantisation applies to the piece, not the input",
                   function=FN, construct="re-quantisation applied to an input sequence", message="", file=fi.file, node=c)
 
 
